@@ -28,13 +28,15 @@ CONSTANTS MaxEdits,      \* length bound of the edit path
 
 Chars(s) == s   \* words are written as tuples of one-character strings
 
-Bases    == {<<"a","s">>, <<"o","n","n","o">>, <<"a",":">>, <<"k","k","h","e","t">>}
+\* (the Avro transliteration is case sensitive: kI / paTa / ekTa differ from ki / pata / ekta)
+Bases    == {<<"a","s">>, <<"o","n","n","o">>, <<"a",":">>, <<"k","k","h","e","t">>, <<"k","I">>, <<"p","a","T","a">>, <<"e","k","T","a">>}
 Sfx      == {<<>>, <<"e">>, <<"g","u","l","o">>, <<"r">>, <<"e","r">>}
 Pres     == {<<>>, <<"(">>, <<"\"">>}
 Posts    == {<<>>, <<".">>, <<":">>, <<"`">>, <<"\"">>}
 \* the suffix keys of suffix.json that can occur as remainders of the targets above
 SuffixKeys == {<<"e">>, <<"g","u","l","o">>, <<"r">>, <<"e","r">>, <<"o">>, <<"l","o">>, <<"t">>, <<"s">>}
-PriorWords == {<<"a","s">>, <<"o","n","n","o","g","u","l","o">>, <<"a",":">>, <<"(","a","s",")">>, <<"k","k","h","e","t","r">>}
+PriorWords == {<<"a","s">>, <<"o","n","n","o","g","u","l","o">>, <<"a",":">>, <<"(","a","s",")">>, <<"k","k","h","e","t","r">>,
+               <<"k","i">>, <<"p","a","t","a">>}
 
 Targets == {p \o b \o s \o q : p \in Pres, b \in Bases, s \in Sfx, q \in Posts}
 
@@ -46,7 +48,14 @@ RECURSIVE MemoOfTyping(_, _, _)
 \* memo after typing text character by character starting from memo m (k = characters typed so far)
 MemoOfTyping(text, k, m) == IF k > Len(text) THEN m ELSE MemoOfTyping(text, k + 1, m \cup {WordOf(SubSeq(text, 1, k))})
 
-Cur == SubSeq(target, 1, pos) \o [i \in 1..junk |-> "x"]
+\* the wrong character: the next character of the target in the other letter case when it is a letter, "x" otherwise
+Lower == <<"a","b","c","d","e","f","g","h","i","j","k","l","m","n","o","p","q","r","s","t","u","v","w","x","y","z">>
+Upper == <<"A","B","C","D","E","F","G","H","I","J","K","L","M","N","O","P","Q","R","S","T","U","V","W","X","Y","Z">>
+SwapCase(c) == IF \E i \in 1..26 : Lower[i] = c THEN Upper[CHOOSE i \in 1..26 : Lower[i] = c]
+               ELSE IF \E i \in 1..26 : Upper[i] = c THEN Lower[CHOOSE i \in 1..26 : Upper[i] = c] ELSE "x"
+JunkAt(p, k) == IF k = 1 /\ p < Len(target) THEN SwapCase(target[p + 1]) ELSE "x"
+JunkSeq(p, n) == [i \in 1..n |-> JunkAt(p, i)]
+Cur == SubSeq(target, 1, pos) \o JunkSeq(pos, junk)
 
 Init == /\ target \in Targets
         /\ prior \in UNION {[1..n -> PriorWords] : n \in 0..MaxPrior}
@@ -57,13 +66,13 @@ Init == /\ target \in Targets
 Fwd  == /\ junk = 0 /\ pos < Len(target)
         /\ pos' = pos + 1 /\ junk' = junk /\ path' = Append(path, target[pos + 1])
         /\ memo' = memo \cup {WordOf(SubSeq(target, 1, pos + 1))}
-Junk == /\ junk < 2 /\ junk' = junk + 1 /\ pos' = pos /\ path' = Append(path, "x")
-        /\ memo' = memo \cup {WordOf(SubSeq(target, 1, pos) \o [i \in 1..(junk + 1) |-> "x"])}
+Junk == /\ junk < 2 /\ junk' = junk + 1 /\ pos' = pos /\ path' = Append(path, JunkAt(pos, junk + 1))
+        /\ memo' = memo \cup {WordOf(SubSeq(target, 1, pos) \o JunkSeq(pos, junk + 1))}
 Back == /\ pos + junk > 0
         /\ IF junk > 0 THEN junk' = junk - 1 /\ pos' = pos ELSE junk' = junk /\ pos' = pos - 1
         /\ path' = Append(path, "<bs>")
         /\ memo' = IF pos' + junk' = 0 THEN memo       \* backspace to empty: nothing is looked up
-                   ELSE memo \cup {WordOf(SubSeq(target, 1, pos') \o [i \in 1..junk' |-> "x"])}
+                   ELSE memo \cup {WordOf(SubSeq(target, 1, pos') \o JunkSeq(pos', junk'))}
 Next == Len(path) < MaxEdits /\ (Fwd \/ Junk \/ Back) /\ UNCHANGED <<target, prior, start>>
 Spec == Init /\ [][Next]_vars
 
